@@ -1,5 +1,339 @@
 package main
 
+import (
+	"fmt"
+	"math"
+	"reflect"
+	"strings"
+
+	"github.com/koestler/go-victron/bleparser"
+)
+
+type bleField struct {
+	name         string
+	start, width int
+	enum         bool
+}
+
+type bleDecoder struct {
+	name   string // Decode<name>
+	n      int    // documented record length in bytes
+	fields []bleField
+	call   func(inp []byte) (any, error)
+}
+
+func wrapDec[T any](f func([]byte) (T, error)) func([]byte) (any, error) {
+	return func(b []byte) (any, error) { v, err := f(b); return v, err }
+}
+
+// field positions: used ONLY to generate inputs (which bits to sweep); the oracle is the Lean layout spec
+func bleDecoders() []bleDecoder {
+	f := func(n string, s, w int) bleField { return bleField{n, s, w, false} }
+	e := func(n string, s, w int) bleField { return bleField{n, s, w, true} }
+	return []bleDecoder{
+		{"AcChargerRecord", 13, []bleField{e("DeviceState", 0, 8), e("ChargerError", 8, 8), f("V1", 16, 13), f("I1", 29, 11), f("V2", 40, 13), f("I2", 53, 11), f("V3", 64, 13), f("I3", 77, 11), f("T", 88, 7), f("Iac", 95, 9)}, wrapDec(bleparser.DecodeAcChargerRecord)},
+		{"BatteryMonitorRecord", 15, []bleField{f("Ttg", 0, 16), f("V", 16, 16), f("Alarm", 32, 16), f("Aux", 48, 16), f("AuxMode", 64, 2), f("I", 66, 22), f("Ah", 88, 20), f("Soc", 108, 10)}, wrapDec(bleparser.DecodeBatteryMonitorRecord)},
+		{"DcDcConverterRecord", 10, []bleField{e("DeviceState", 0, 8), e("ChargerError", 8, 8), f("Vin", 16, 16), f("Vout", 32, 16), f("Off", 48, 32)}, wrapDec(bleparser.DecodeDcDcConverterRecord)},
+		{"DcEnergyMeterRecord", 11, []bleField{f("Mode", 0, 16), f("V", 16, 16), f("Alarm", 32, 16), f("Aux", 48, 16), f("AuxMode", 64, 2), f("I", 66, 22)}, wrapDec(bleparser.DecodeDcEnergyMeterRecord)},
+		{"GxDeviceRecord", 11, []bleField{f("V", 0, 16), f("Pv", 16, 20), f("Soc", 36, 7), f("Pbat", 43, 21), f("Pdc", 64, 21)}, wrapDec(bleparser.DecodeGxDeviceRecord)},
+		{"InverterRecord", 11, []bleField{e("DeviceState", 0, 8), f("Alarm", 8, 16), f("V", 24, 16), f("S", 40, 16), f("Vac", 56, 15), f("Iac", 71, 11)}, wrapDec(bleparser.DecodeInverterRecord)},
+		{"InverterRsRecord", 12, []bleField{e("DeviceState", 0, 8), e("ChargerError", 8, 8), f("V", 16, 16), f("I", 32, 16), f("Pv", 48, 16), f("Yield", 64, 16), f("Pac", 80, 16)}, wrapDec(bleparser.DecodeInverterRsRecord)},
+		{"LynxSmartBms", 16, []bleField{f("Error", 0, 8), f("Ttg", 8, 16), f("V", 24, 16), f("I", 40, 16), f("Io", 56, 16), f("Warn", 72, 18), f("Soc", 90, 10), f("Ah", 100, 20), f("T", 120, 7)}, wrapDec(bleparser.DecodeLynxSmartBms)},
+		{"MultiRsRecord", 14, []bleField{e("DeviceState", 0, 8), e("ChargerError", 8, 8), f("I", 16, 16), f("V", 32, 14), f("AcIn", 46, 2), f("Pin", 48, 16), f("Pout", 64, 16), f("Pv", 80, 16), f("Yield", 96, 16)}, wrapDec(bleparser.DecodeMultiRsRecord)},
+		{"SmartBatteryProtectRecord", 15, []bleField{f("State", 0, 8), f("Out", 8, 8), f("Err", 16, 8), f("Alarm", 24, 16), f("Warn", 40, 16), f("Vin", 56, 16), f("Vout", 72, 16), f("Off", 88, 32)}, wrapDec(bleparser.DecodeSmartBatteryProtectRecord)},
+		{"SmartLithiumRecord", 16, []bleField{f("Flags", 0, 32), f("Err", 32, 16), f("C1", 48, 7), f("C2", 55, 7), f("C3", 62, 7), f("C4", 69, 7), f("C5", 76, 7), f("C6", 83, 7), f("C7", 90, 7), f("C8", 97, 7), f("V", 104, 12), f("Bal", 116, 4), f("T", 120, 7)}, wrapDec(bleparser.DecodeSmartLithiumRecord)},
+		{"SolarChargeRecord", 12, []bleField{e("DeviceState", 0, 8), e("ChargerError", 8, 8), f("V", 16, 16), f("I", 32, 16), f("Yield", 48, 16), f("Pv", 64, 16), f("Iload", 80, 9)}, wrapDec(bleparser.DecodeSolarChargeRecord)},
+		{"VeBusRecord", 13, []bleField{f("State", 0, 8), f("Err", 8, 8), f("I", 16, 16), f("V", 32, 14), f("AcIn", 46, 2), f("Pin", 48, 19), f("Pout", 67, 19), f("Alarm", 86, 2), f("T", 88, 7), f("Soc", 95, 7)}, wrapDec(bleparser.DecodeVeBusRecord)},
+	}
+}
+
+func renderRecord(v any) string {
+	rv := reflect.ValueOf(v)
+	rt := rv.Type()
+	var parts []string
+	for i := 0; i < rv.NumField(); i++ {
+		f := rv.Field(i)
+		var s string
+		switch f.Kind() {
+		case reflect.Float64:
+			x := f.Float()
+			if math.IsNaN(x) {
+				s = "NaN"
+			} else {
+				s = fbits(x)
+			}
+		case reflect.Int, reflect.Int8, reflect.Int16, reflect.Int32, reflect.Int64:
+			s = fmt.Sprintf("%d", f.Int())
+		case reflect.Uint, reflect.Uint8, reflect.Uint16, reflect.Uint32, reflect.Uint64:
+			s = fmt.Sprintf("%d", f.Uint())
+		default:
+			s = "?"
+		}
+		parts = append(parts, rt.Field(i).Name+"="+s)
+	}
+	return strings.Join(parts, ";")
+}
+
+// decodeReal: the real decoder on a slice of exactly the given length and capacity
+func decodeReal(d bleDecoder, inp, spare []byte) (out string) {
+	buf := make([]byte, len(inp)+len(spare))
+	copy(buf, inp)
+	copy(buf[len(inp):], spare)
+	arg := buf[:len(inp):len(buf)]
+	defer func() {
+		if r := recover(); r != nil {
+			out = "PANIC"
+		}
+	}()
+	v, err := d.call(arg)
+	if err != nil {
+		return "err:" + errKind(err)
+	}
+	return "ok:" + renderRecord(v)
+}
+
+func hexOrDash(b []byte) string {
+	if len(b) == 0 {
+		return "-"
+	}
+	return HEX(b)
+}
+
+func setBits(buf []byte, start, width int, v uint64) {
+	for i := 0; i < width; i++ {
+		bit := (v >> uint(i)) & 1
+		p := start + i
+		if p/8 >= len(buf) {
+			return
+		}
+		if bit == 1 {
+			buf[p/8] |= 1 << uint(p%8)
+		} else {
+			buf[p/8] &^= 1 << uint(p%8)
+		}
+	}
+}
+
+// valid enum codes (from the real factories) so that baselines are not rejected
+var validEnumByte = []byte{0, 2, 3, 4, 5}
+
+func contexts(d bleDecoder, rng *Rng, extra int) [][]byte {
+	n := d.n + extra
+	zero := make([]byte, n)
+	ones := make([]byte, n)
+	for i := range ones {
+		ones[i] = 0xFF
+	}
+	rnd := rng.Bytes(n)
+	out := [][]byte{zero, ones, rnd}
+	for _, c := range out {
+		for _, f := range d.fields {
+			if f.enum {
+				setBits(c, f.start, f.width, uint64(validEnumByte[rng.Intn(2)]))
+			}
+		}
+	}
+	return out
+}
+
+func emitBle(s *Sink, d bleDecoder, tag string, inp, spare []byte) string {
+	out := decodeReal(d, inp, spare)
+	s.Line(tag, fmt.Sprintf("BD %s %s %s", d.name, hexOrDash(inp), hexOrDash(spare)), out)
+	s.Line(tag+"-spec", fmt.Sprintf("BS %s %s", d.name, hexOrDash(inp)), out)
+	return out
+}
+
+func suiteC07(rng *Rng, thorough bool, s *Sink) {
+	maxBits := 10
+	if thorough {
+		maxBits = 14
+	}
+	for _, d := range bleDecoders() {
+		for _, f := range d.fields {
+			var vals []uint64
+			if f.width <= maxBits || f.enum {
+				for v := uint64(0); v < 1<<uint(f.width); v++ {
+					vals = append(vals, v)
+				}
+			} else {
+				top := uint64(1)<<uint(f.width) - 1
+				seen := map[uint64]bool{}
+				add := func(v uint64) {
+					v &= top
+					if !seen[v] {
+						seen[v] = true
+						vals = append(vals, v)
+					}
+				}
+				for _, v := range []uint64{0, 1, 2, top, top - 1, top - 2, top >> 1, top>>1 + 1, top>>1 - 1, top>>1 + 2, top >> 2, 0x7F, 0x80, 0xFF, 0x100, 0x7FFF, 0x8000, 0xFFFF, 0x10000, 40, 39, 41} {
+					add(v)
+				}
+				for k := 0; k < f.width; k++ {
+					add(1 << uint(k))
+					add(top &^ (1 << uint(k)))
+				}
+				for len(vals) < 1<<uint(maxBits) {
+					add(rng.U64())
+				}
+			}
+			for ci, ctx := range contexts(d, rng, 0) {
+				for _, v := range vals {
+					inp := append([]byte(nil), ctx...)
+					setBits(inp, f.start, f.width, v)
+					emitBle(s, d, fmt.Sprintf("%s-ctx%d", d.name, ci), inp, nil)
+				}
+			}
+		}
+		// aux modes x aux raw values (mode-dependent fields)
+		for _, f := range d.fields {
+			if f.name != "AuxMode" {
+				continue
+			}
+			for mode := uint64(0); mode < 4; mode++ {
+				for _, aux := range []uint64{0, 1, 0x7FFF, 0x8000, 0xFFFF, 0xFFFE, 0x7FFE, 0x6ABC, uint64(rng.Intn(65536))} {
+					for _, ctx := range contexts(d, rng, 0) {
+						inp := append([]byte(nil), ctx...)
+						setBits(inp, f.start, 2, mode)
+						setBits(inp, 48, 16, aux)
+						emitBle(s, d, d.name+"-aux", inp, nil)
+					}
+				}
+			}
+		}
+		// fully random inputs, longer than the record as well
+		n := 300
+		if thorough {
+			n = 5000
+		}
+		for i := 0; i < n; i++ {
+			inp := rng.Bytes(d.n + rng.Intn(6))
+			if i%2 == 0 {
+				for _, f := range d.fields {
+					if f.enum {
+						setBits(inp, f.start, f.width, uint64(validEnumByte[rng.Intn(len(validEnumByte))]))
+					}
+				}
+			}
+			emitBle(s, d, d.name+"-random", inp, nil)
+		}
+	}
+	// the vectors of the repository's own tests
+	for _, v := range []struct{ dec, hex string }{
+		{"BatteryMonitorRecord", "ffffe50400000000030000f40140df03"}, {"BatteryMonitorRecord", "ffffe6040000feff000000000080feac"},
+		{"BatteryMonitorRecord", "ffffe6040000feff010000000080fe0c"}, {"BatteryMonitorRecord", "ffffc60400007d73feff7fffffffff12"},
+		{"BatteryMonitorRecord", "fffff80400008971feff7fffffffff5c"}, {"SolarChargeRecord", "04006c050e000300130000fe409ac069"},
+		{"DcDcConverterRecord", "0400ac0570050000000000000000000000"},
+	} {
+		for _, d := range bleDecoders() {
+			if d.name == v.dec {
+				emitBle(s, d, "repo-test-vectors", unHEX(strings.ToUpper(v.hex)), nil)
+			}
+		}
+	}
+}
+
+func suiteC08(rng *Rng, thorough bool, s *Sink) {
+	for _, d := range bleDecoders() {
+		for l := 0; l <= 64; l++ {
+			for ci := 0; ci < 3; ci++ {
+				inp := make([]byte, l)
+				switch ci {
+				case 1:
+					for i := range inp {
+						inp[i] = 0xFF
+					}
+				case 2:
+					inp = rng.Bytes(l)
+				}
+				if ci != 1 {
+					for _, f := range d.fields {
+						if f.enum {
+							setBits(inp, f.start, f.width, uint64(validEnumByte[rng.Intn(2)]))
+						}
+					}
+				}
+				base := emitBle(s, d, fmt.Sprintf("%s-len", d.name), inp, nil)
+				// the property, directly
+				op := fmt.Sprintf("BD %s %s -", d.name, hexOrDash(inp))
+				if (base == "err:too-short") != (l < d.n) {
+					s.Violate(op, base, fmt.Sprintf("%s with %d bytes (record length %d): ErrInputTooShort must be returned exactly when the input is shorter than the record, got %s", d.name, l, d.n, base))
+				}
+				if base == "PANIC" {
+					s.Violate(op, base, fmt.Sprintf("%s panics on a %d-byte slice with cap == len", d.name, l))
+				}
+				// spare capacity 1..8, filled with 00 / FF / random: the result must not change
+				for sp := 1; sp <= 8; sp++ {
+					if !thorough && sp > 3 && sp != 8 && l%4 != 0 {
+						continue
+					}
+					for fill := 0; fill < 3; fill++ {
+						spare := make([]byte, sp)
+						switch fill {
+						case 1:
+							for i := range spare {
+								spare[i] = 0xFF
+							}
+						case 2:
+							spare = rng.Bytes(sp)
+						}
+						out := decodeReal(d, inp, spare)
+						ops := fmt.Sprintf("BD %s %s %s", d.name, hexOrDash(inp), HEX(spare))
+						s.Line(d.name+"-spare", ops, out)
+						if out != base {
+							s.Violate(ops, out, fmt.Sprintf("%s: result depends on the bytes beyond the slice's length (cap-len=%d): %s vs %s with cap == len", d.name, sp, out, base))
+						}
+					}
+				}
+			}
+		}
+		// every suffix length 1..16 appended to a complete record: the result must not change
+		nrec := 12
+		if thorough {
+			nrec = 200
+		}
+		for r := 0; r < nrec; r++ {
+			rec := rng.Bytes(d.n)
+			if r%3 == 0 { // all fields not-available (all ones), valid enums
+				for i := range rec {
+					rec[i] = 0xFF
+				}
+			}
+			for _, f := range d.fields {
+				if f.enum {
+					setBits(rec, f.start, f.width, uint64(validEnumByte[rng.Intn(len(validEnumByte))]))
+				}
+			}
+			base := emitBle(s, d, d.name+"-record", rec, nil)
+			for sl := 1; sl <= 16; sl++ {
+				for fill := 0; fill < 3; fill++ {
+					suf := make([]byte, sl)
+					switch fill {
+					case 1:
+						for i := range suf {
+							suf[i] = 0xFF
+						}
+					case 2:
+						suf = rng.Bytes(sl)
+					}
+					inp := append(append([]byte(nil), rec...), suf...)
+					out := emitBle(s, d, d.name+"-suffix", inp, nil)
+					if out != base {
+						s.Violate(fmt.Sprintf("BD %s %s -", d.name, HEX(inp)), out, fmt.Sprintf("%s: result depends on the bytes after the record: %X alone gives %s, followed by %X gives %s", d.name, rec, base, suf, out))
+					}
+				}
+			}
+		}
+	}
+}
+
 func runBleSuite(suite string, rng *Rng, thorough bool, s *Sink) bool {
-	return false
+	switch suite {
+	case "c07":
+		suiteC07(rng, thorough, s)
+	case "c08":
+		suiteC08(rng, thorough, s)
+	default:
+		return runBleHandleSuite(suite, rng, thorough, s)
+	}
+	return true
 }
